@@ -519,6 +519,20 @@ func (x *Explorer) intrinsic(fr *Frame, st *State, ins *ssa.Call, callee *ssa.Fu
 			return &Sym{N: "time(" + s + ")", T: ins.Type()}, true
 		}
 	}
+	// generated ORM index keys: <T><Fields>IndexKey.With<Fields>(values…)
+	if strings.Contains(pkg, "/api/v2/") && strings.HasPrefix(callee.Name(), "With") && callee.Signature.Recv() != nil && len(args) >= 1 {
+		if nt := namedOf(callee.Signature.Recv().Type()); nt != nil && strings.HasSuffix(nt.Obj().Name(), "IndexKey") {
+			k := &IndexKeyV{Type: nt.Obj().Name()}
+			var as []string
+			for i := 0; i < callee.Signature.Params().Len() && i+1 < len(args); i++ {
+				k.Fields = append(k.Fields, snakeToCamel(callee.Signature.Params().At(i).Name()))
+				k.Vals = append(k.Vals, args[i+1])
+				as = append(as, st.canon(args[i+1]))
+			}
+			k.Name = nt.Obj().Name() + "." + callee.Name() + "(" + strings.Join(as, ", ") + ")"
+			return k, true
+		}
+	}
 	// generated ORM iterator Value()
 	if strings.Contains(pkg, "/api/v2/") && callee.Name() == "Value" && len(args) == 1 {
 		if it, ok := args[0].(*IterV); ok {
